@@ -82,6 +82,14 @@ type WAL struct {
 	// waits on the close before acquiring the lock and continuing.
 	triggerRotate chan uint64
 	awaitRotate   chan struct{}
+
+	// failed is set (with writeMu held) when a state change was committed to
+	// metaDB but could not be completed in memory because its post-commit step
+	// failed. The in-memory state is then behind the durable one, so no further
+	// appends or state changes are accepted: anything acknowledged on top of the
+	// stale state could be lost on the next Open. Re-opening the WAL recovers
+	// from the committed state.
+	failed error
 }
 
 type walOpt func(*WAL)
@@ -299,6 +307,9 @@ func (w *WAL) loadState() *state {
 
 // mutateState executes a stateTxn. writeLock MUST be held while calling this.
 func (w *WAL) mutateStateLocked(tx stateTxn) error {
+	if err := w.checkFailedLocked(); err != nil {
+		return err
+	}
 	s := w.loadState()
 	s.acquire()
 	defer s.release()
@@ -316,6 +327,9 @@ func (w *WAL) mutateStateLocked(tx stateTxn) error {
 
 	if postCommit != nil {
 		if err := postCommit(); err != nil {
+			// The new state is already durable but we can't switch to it. Don't
+			// let writers carry on from the old one.
+			w.failed = err
 			return err
 		}
 	}
@@ -424,6 +438,10 @@ func (w *WAL) StoreLogs(logs []*raft.Log) error {
 
 	// Close may have completed while we waited for the lock or the rotation.
 	if err := w.checkClosed(); err != nil {
+		return err
+	}
+
+	if err := w.checkFailedLocked(); err != nil {
 		return err
 	}
 
@@ -973,6 +991,15 @@ func (w *WAL) closeSegments(toClose []io.Closer) {
 			}
 		}
 	}
+}
+
+// checkFailedLocked returns an error if an earlier state change was committed
+// to metaDB but could not be completed in memory. writeMu MUST be held.
+func (w *WAL) checkFailedLocked() error {
+	if w.failed != nil {
+		return fmt.Errorf("WAL must be re-opened: a committed state change could not be completed: %w", w.failed)
+	}
+	return nil
 }
 
 func (w *WAL) checkClosed() error {
